@@ -1,3 +1,4 @@
+mod alloc;
 mod common;
 mod sim;
 
@@ -204,6 +205,10 @@ fn main() {
             if let Some(e) = sim_engine(prop) {
                 let code = run_engine(Arc::new(e), tier, seed);
                 code
+            } else if prop == "C04" {
+                run_engine(Arc::new(alloc::AllocEngine { prop: "C04" }), tier, seed)
+            } else if prop == "C16" {
+                run_engine(Arc::new(alloc::AllocEngine { prop: "C16" }), tier, seed)
             } else {
                 eprintln!("unknown property {prop}");
                 2
@@ -217,6 +222,10 @@ fn main() {
             let path = Path::new(&args[3]);
             if let Some(e) = sim_engine(prop) {
                 replay_engine(&e, path)
+            } else if prop == "C04" {
+                replay_engine(&alloc::AllocEngine { prop: "C04" }, path)
+            } else if prop == "C16" {
+                replay_engine(&alloc::AllocEngine { prop: "C16" }, path)
             } else {
                 eprintln!("unknown property {prop}");
                 2
